@@ -59,6 +59,9 @@ var c07Sets = [][]c07Route{
 	// prefix, a duplicate, a second match-all): the accepted routes stay as they were
 	{{Method: "GET", Text: "/a/{x}"}, {Method: "GET", Text: "/a/{x}/{y}/{y}", Rejected: true}, {Method: "GET", Text: "/a/{x}/z"}, {Method: "GET", Text: "/a/{x}/z", Rejected: true}, {Method: "GET", Text: "/{m: **}"}},
 	{{Method: "GET", Text: "/a/b/z"}, {Method: "GET", Text: "/a/?b"}, {Method: "GET", Text: "/a", Rejected: true}, {Method: "GET", Text: "/a/{m: **}/{n: **}/z", Rejected: true}, {Method: "GET", Text: "/a/{m: **}/z"}},
+	// several binds in one route, for requests that carry a well-formed escape in one captured value and a
+	// malformed one in another (each value is decoded, or left raw, on its own)
+	{{Method: "GET", Text: "/a/{x}/{y}/{z}"}, {Method: "GET", Text: "/z/{x}-{y}-{w}"}, {Method: "GET", Text: "/{m: **}/z/{k}/{j}"}},
 	// an optional route refused only because its short form is taken (the long form alone would be new): neither
 	// form is served afterwards, and a later registration of the long form is served by its own chain
 	{{Method: "GET", Text: "/a/?z"}, {Method: "GET", Text: "/a/?b", Rejected: true}, {Method: "GET", Text: "/z/?{x}"}, {Method: "GET", Text: "/z/?{m: **}", Rejected: true}},
@@ -321,6 +324,7 @@ func c07Paths(thorough bool) []string {
 	out = append(out, `/a)(\Qb`, "/azb", "/ab", "/a)(b", `/az\Eb`, `/a\Qz\Eb`) // texts around the quoted expressions
 	out = append(out, "/aza", "/azza", "/azaza", "/azzza", "/a/a", "/a/aa", "/a/aaa", "/z/aaa", "/z/aaaa", "/z/aaaaa", "/z/aaa/z", "/a.a/z", "/a..a/z", "/a.z.a/z") // overlapping literals
 	out = append(out, "/a/b", "/a/b/z", "/z/a/b") // below a refused optional route
+	out = append(out, "/a/%2F/%/z%20", "/a/%/%2F/%41", "/a/%zz/a%2Fz/%2F", "/z/%2F-%-%41", "/z/%-%2F-%2F", "/a%2F/%/z/%/%61", "/%/%2F/z/%2561/%zz") // a malformed escape next to well-formed ones
 	out = append(out, "/"+strings.Repeat("a/", 32*1024), strings.Repeat("/", 70000), "/a/"+strings.Repeat("z", 65536))
 	return out
 }
